@@ -210,7 +210,43 @@ def materialise(base, layout, files, rng=None, content=None):
         with open(p, "wb") as fh:
             fh.write(content(f) if content else (b"%d" % f["id"]))
         reg[p] = f
+    LAST["strays"] = 0
+    if files and len(files) % 3 == 0 and layout.dirs:
+        LAST["strays"] = add_stray_dirs(base, layout, files)
     return reg
+
+
+LAST = {"strays": 0}
+
+
+STRAY_FIELDS = [{"day": "00"}, {"month": "02", "day": "30"}, {"month": "13"}, {"month": "00"},
+                {"doy": "367"}, {"doy": "000"}, {"hour": "24"}, {"day": "32"}]
+
+
+def add_stray_dirs(base, layout, files):
+    """Population class: directories whose names have the shape of the dated levels but are no calendar
+    date (2018-01-00 of a monthly product, 02/30 left by a broken job, doy 367, hour 24). They hold no
+    file of the fileset - every second one holds a foreign file, the others are empty -, so no answer
+    of the model changes."""
+    made = 0
+    for k, f in enumerate(files[:4]):
+        t0 = f["t0"]
+        fields = {"year": "%04d" % t0.year, "year2": "%02d" % (t0.year % 100), "month": "%02d" % t0.month,
+                  "day": "%02d" % t0.day, "doy": "%03d" % t0.timetuple().tm_yday,
+                  "hour": "%02d" % t0.hour, "sat": f["sat"]}
+        for j, change in enumerate(STRAY_FIELDS):
+            if not any("{%s}" % name in d for name in change for d in layout.dirs):
+                continue
+            parts = [d.format(**dict(fields, **change)).replace("*", "a") for d in layout.dirs]
+            path = base.rstrip("/") + "/" + "/".join(parts)
+            if os.path.exists(path):
+                continue
+            os.makedirs(path)
+            made += 1
+            if (k + j) % 2:
+                with open(path + "/monthly_mean.nc", "wb") as fh:
+                    fh.write(b"foreign")
+    return made
 
 
 def make_fileset(base, layout, **kw):
